@@ -49,6 +49,10 @@ type _LexerStateMachine struct {
 	state int
 	mode  []uint32
 	modeStack _Stack[[]uint32]
+
+	// pending is true while characters consumed since the last accepted or
+	// discarded token have not been made part of a token yet.
+	pending bool
 }
 
 func (l *_LexerStateMachine) PushRune(r rune) int {
@@ -94,6 +98,7 @@ func (l *_LexerStateMachine) PushRune(r rune) int {
 			switch {
 			case r >= rune(mode[k]) && r <= rune(mode[k+1]):
 				l.state = int(mode[k+2])
+				l.pending = true
 				return _lexerConsume
 			case r < rune(mode[k]):
 				e = j
@@ -123,9 +128,11 @@ func (l *_LexerStateMachine) PushRune(r rune) int {
 		case 3: // Accept
 			l.token = int(mode[i+1])
 			l.state = 0
+			l.pending = false
 			return _lexerAccept
 		case 4: // Discard
 			l.state = 0
+			l.pending = false
 			return _lexerDiscard
 		case 5: // Accum
 			l.state = 0
@@ -133,7 +140,10 @@ func (l *_LexerStateMachine) PushRune(r rune) int {
 		}
 	}
 
-	if l.state == 0 && r == -1 {
+	// The end of the input is only legal at a token boundary. State 0 alone does
+	// not say so: an action-less fragment returns to it with text still pending,
+	// and minimization can merge a mid-token state with the start state.
+	if l.state == 0 && r == -1 && !l.pending {
 		return _lexerEOF
 	}
 
@@ -142,6 +152,7 @@ func (l *_LexerStateMachine) PushRune(r rune) int {
 func (l *_LexerStateMachine) Reset() {
 	l.mode = nil
 	l.state = 0
+	l.pending = false
 }
 
 func (l *_LexerStateMachine) Token() int {
